@@ -141,7 +141,7 @@ fn run(ctx: &Ctx) {
                 spec,
                 doc,
                 choices,
-                feed: Feed { sched, chunk, ctor },
+                feed: Feed { sched, chunk, ctor, late_chunk: false },
             }
         });
     ctx.run_cases("line-bounded", n, strat, check_stream);
